@@ -195,6 +195,19 @@ func (c20deadWriter) Write([]byte) (int, error) {
 	return 0, errors.New("write: broken pipe (injected)")
 }
 
+// c20plain: letters and digits only (nothing JSON would have to escape anyway).
+func c20plain(s string) bool {
+	if s == "" {
+		return false
+	}
+	for _, ch := range []byte(s) {
+		if !(ch >= 'a' && ch <= 'z' || ch >= 'A' && ch <= 'Z' || ch >= '0' && ch <= '9') {
+			return false
+		}
+	}
+	return true
+}
+
 var c20number = regexp.MustCompile(`-?[0-9]+`)
 
 var c20kindNames = [...]string{"GET", "PUT", "other-method", "UnmarshalText", "flag.Set", "json-decode", "yaml-decode", "SetLevel", "Level", "Enabled", "round-trip"}
@@ -361,6 +374,20 @@ func runC20(c *Ctx) {
 					}
 					js, _ := json.Marshal(map[string]string{"level": op.text})
 					body = string(js)
+					if op.chunk%5 == 2 && c20plain(op.text) {
+						// the same JSON document, spelled with \uXXXX escapes for some
+						// of the letters (every third, or all of them)
+						var b strings.Builder
+						for i, ch := range []byte(op.text) {
+							if i%3 == op.chunk%3 || op.chunk%2 == 0 {
+								fmt.Fprintf(&b, "\\u%04x", ch)
+							} else {
+								b.WriteByte(ch)
+							}
+						}
+						body = `{"level":"` + b.String() + `"}`
+						c.R.Probe("level text spelled with JSON escapes")
+					}
 					if op.chunk%4 == 0 && !op.form && seq {
 						// the level key twice: which value wins is the decoder's
 						// business, but a rejected request must still change nothing
